@@ -3,7 +3,7 @@ package engine
 import (
 	"errors"
 	"fmt"
-	"math"
+	"math/big"
 	"os"
 	"sort"
 	"strings"
@@ -392,10 +392,18 @@ func aggregateRows(selectList sql.SelectList, groupBy []sql.ColumnReference, row
 				}
 				counts[countKey]++
 
-				// calculate the cumulative average average
-				avg := rows[groupKeyIdx].Vals[colIdx].(int64) * (counts[countKey] - 1)
-				avg += row.Vals[colIdx].(int64)
-				avg = int64(math.Round(float64(avg) / float64(counts[countKey])))
+				// calculate the cumulative average average, in exact integer
+				// arithmetic: avg*(n-1)+v does not fit 64 bits for large
+				// BIGINT values and float64 holds only 53 of them
+				n := big.NewInt(counts[countKey])
+				sum := new(big.Int).Mul(big.NewInt(rows[groupKeyIdx].Vals[colIdx].(int64)), big.NewInt(counts[countKey]-1))
+				sum.Add(sum, big.NewInt(row.Vals[colIdx].(int64)))
+				q, r := new(big.Int).QuoRem(sum, n, new(big.Int))
+				if r.Abs(r).Lsh(r, 1).Cmp(n) >= 0 {
+					// round half away from zero
+					q.Add(q, big.NewInt(int64(sum.Sign())))
+				}
+				avg := q.Int64()
 
 				// update the de-duped row with the recalculated average
 				rows[groupKeyIdx].Vals[colIdx] = avg
